@@ -486,6 +486,11 @@ def par_program(shape, size, i, j, k, l, perm):
                 ["loop", 2, par(["gate", "g1", R0(k)], ["gate", "g1", A(l)])]]
     elif shape == 5:
         body = [par(["gate", "g1", R0(i)], par(["gate", "g1", R0(j)], ["gate", "g1", R0(k)])), par(["sequential_block", par(["gate", "g1", R0(l)])], ["gate", "g1", R0(i)])]
+    elif shape == 7:
+        # prepare/measure-style gates use all qubits, also when they are a branch of a parallel block
+        body = [par(["gate", "prepare_all"], ["gate", "g1", R0(i)]), ["gate", "g1", R0(j)], par(["gate", "g1", R0(k)], ["gate", "measure_all"])] if l % 2 == 0 else \
+               [["gate", "prepare_all"], ["gate", "g1", R0(j)], par(["gate", "g1", R0(k)], ["gate", "I_g1", R0(i)], ["gate", "measure_all"])]
+        return head + body
     else:
         # nested macros whose parameter names coincide across levels
         head = head + [["macro", "on", "p", ["sequential_block", ["gate", "g1", "p"]]],
@@ -523,7 +528,7 @@ def c13_parallel(shape: int, size: int, i: int, j: int, k: int, l: int) -> str:
     except R.Invalid:
         tree = None
     allq = [("r", n) for n in range(size)]
-    if shape in (0, 1) and k == l:
+    if (shape == 0 and k == l) or (shape == 1 and j == l):
         return "~repeated qubit argument (rejected by the emulator; outside this claim)"
     results = []
     for perm in (False, True):
@@ -734,9 +739,17 @@ def state_template(tname: str, mask: int, o0: int, **leaves) -> str:
         for a, b in zip(got, want):
             if abs(a - b) > 1e-9:
                 return f"subcircuit {num}: emulated state differs from the reference product :: {sx} {ov}"
-    # used-qubit analysis on the circuit as written (macros not expanded)
+    # used-qubit analysis on the circuit as written: macros not expanded, and without the bracketing
+    # prepare_all/measure_all (busy gates would make every answer "all qubits")
+    plain = program(tname, leaves)
+    ref_plain, _ = try_ref(plain, ov)
+    if ref_plain is None:
+        return ""
+    ref = ref_plain
     try:
-        uq = get_used_qubit_indices(c1)
+        cp = build(plain, inject_pulses=NATIVE)
+        cp1 = fill_in_let(cp, override_dict=ov) if ov else cp
+        uq = get_used_qubit_indices(cp1)
     except JaqalError as ex:
         return f"used-qubit analysis rejects a valid program: {ex} :: {sx}"
     except RecursionError:
